@@ -1055,3 +1055,488 @@ func ordinalOf(fn *ssa.Function, target ssa.Instruction) string {
 	})
 	return out
 }
+
+// checkCacheKeyAgreement (C12): inside the reset-code authenticator every persistent-cache call of
+// one function addresses the same key value (get, bump and delete of one entry).
+func (c *Ctx) checkCacheKeyAgreement() {
+	r := c.R
+	fn := c.ssaMethod("server/auth/code", "authenticator", "Authenticate")
+	r.Func(fk(fn))
+	var keys []ssa.Value
+	var sites []ssa.Instruction
+	for _, m := range []string{"Get", "Upsert", "Delete"} {
+		f := c.E().storeIface("PersistentCacheInterface", m)
+		for _, ci := range core.CallsTo(fn, f) {
+			keys = append(keys, core.CallArgs(ci.Common())[1])
+			sites = append(sites, ci.(ssa.Instruction))
+		}
+	}
+	same := len(keys) >= 3
+	var at ssa.Instruction
+	for i := 1; i < len(keys); i++ {
+		if !sameValue(keys[i], keys[0], 0) {
+			same = false
+			at = sites[i]
+		}
+	}
+	r.Check(same, "C12.3c-one-cache-key", fk(fn)+": Get, Upsert and Delete address one key value", c.P.Pos(fn.Pos()), fmt.Sprintf("%d calls", len(keys)),
+		"the cache entry is read under one key and deleted/updated under another"+posOf(c, at)+": an accepted code is not removed (replay) or wrong guesses are not counted")
+}
+
+// checkTokenDecodeOffsets (C12): when the token layout is decoded field by field from byte slices
+// (instead of binary.Read of the whole struct), each field is read at its packed offset.
+func (c *Ctx) checkTokenDecodeOffsets() {
+	r := c.R
+	fn := c.ssaMethod("server/auth/token", "authenticator", "Authenticate")
+	layout := c.P.NamedType("server/auth/token", "tokenLayout")
+	st := layout.Underlying().(*types.Struct)
+	sizes := types.SizesFor("gc", "amd64")
+	off := map[string]int64{}
+	var o int64
+	for i := 0; i < st.NumFields(); i++ {
+		off[st.Field(i).Name()] = o
+		o += sizes.Sizeof(st.Field(i).Type())
+	}
+	n := 0
+	okAll := true
+	detail := ""
+	core.AllInstrs(fn, func(in ssa.Instruction) {
+		s, ok := in.(*ssa.Store)
+		if !ok {
+			return
+		}
+		f, base := core.FieldOfAddr(s.Addr)
+		if f == nil || base == nil {
+			return
+		}
+		bt := base.Type()
+		if p, ok := bt.(*types.Pointer); ok {
+			bt = p.Elem()
+		}
+		if !types.Identical(bt, layout) {
+			return
+		}
+		// value decoded from a slice of the token parameter: find the slice's low bound
+		var sl *ssa.Slice
+		collectLeavesThroughCalls(s.Val, func(v ssa.Value) {
+			if x, ok := v.(*ssa.Slice); ok {
+				sl = x
+			}
+		})
+		if sl == nil {
+			return
+		}
+		n++
+		lo := int64(0)
+		if sl.Low != nil {
+			k, ok := core.ConstIntValue(sl.Low)
+			if !ok {
+				okAll = false
+				detail = "non-constant offset for " + f.Name()
+				return
+			}
+			lo = k
+		}
+		if lo != off[f.Name()] {
+			okAll = false
+			detail = fmt.Sprintf("field %s is decoded from offset %d, its offset in the signed layout is %d", f.Name(), lo, off[f.Name()])
+		}
+	})
+	if n == 0 {
+		r.OK("C12.1e-decode-offsets", fk(fn)+": layout decoded as a whole (binary.Read)", c.P.Pos(fn.Pos()), "no field-by-field decoding")
+		return
+	}
+	r.Check(okAll, "C12.1e-decode-offsets", fk(fn)+": every field decoded at its offset in the signed layout", c.P.Pos(fn.Pos()), fmt.Sprintf("%d fields", n), "the token's fields are read from the wrong bytes: "+detail)
+}
+
+func collectLeavesThroughCalls(v ssa.Value, f func(ssa.Value)) {
+	seen := map[ssa.Value]bool{}
+	var walk func(x ssa.Value, d int)
+	walk = func(x ssa.Value, d int) {
+		if x == nil || seen[x] || d > 8 {
+			return
+		}
+		seen[x] = true
+		f(x)
+		switch y := x.(type) {
+		case *ssa.Call:
+			for _, a := range y.Call.Args {
+				walk(a, d+1)
+			}
+		case *ssa.Convert:
+			walk(y.X, d+1)
+		case *ssa.ChangeType:
+			walk(y.X, d+1)
+		case *ssa.BinOp:
+			walk(y.X, d+1)
+			walk(y.Y, d+1)
+		case *ssa.Phi:
+			for _, e := range y.Edges {
+				walk(e, d+1)
+			}
+		}
+	}
+	walk(v, 0)
+}
+
+// checkValidatorInitialised (C13): a credential validator obtained from the registry is used
+// (Request/Check/ResetSecret) only behind IsInitialized() == true: compiled-in validators that are
+// not enabled in the configuration are zero values.
+func (c *Ctx) checkValidatorInitialised() {
+	r := c.R
+	getV := c.E().storeIface("PersistentStorageInterface", "GetValidator")
+	n := 0
+	for _, fn := range c.funcsCalling(getV, "server") {
+		for _, gc := range core.CallsTo(fn, getV) {
+			gcall, ok := gc.(*ssa.Call)
+			if !ok {
+				continue
+			}
+			isV := func(v ssa.Value) bool { return core.Derives(v, func(x ssa.Value) bool { return x == ssa.Value(gcall) }, false) }
+			core.AllInstrs(fn, func(in ssa.Instruction) {
+				call, ok := in.(*ssa.Call)
+				if !ok || !call.Call.IsInvoke() || !isV(call.Call.Value) {
+					return
+				}
+				// Request is the operation that needs the validator's configuration (templates, sender);
+				// the other operations work on stored state only
+				if call.Call.Method.Name() != "Request" {
+					return
+				}
+				n++
+				r.Func(fk(fn))
+				g := core.Guard{Name: "IsInitialized()", Match: func(a core.CondAtom) (bool, bool) {
+					if a.Op != token.ILLEGAL {
+						return false, false
+					}
+					cc, ok := a.Val.(*ssa.Call)
+					if !ok || !cc.Call.IsInvoke() || cc.Call.Method.Name() != "IsInitialized" || !isV(cc.Call.Value) {
+						return false, false
+					}
+					return true, true
+				}}
+				ok2, cnt := core.GuardedBy(fn, call, g)
+				r.Check(ok2 && cnt[0] > 0, "C13.2c-validator-initialised", fmt.Sprintf("%s: Validator.%s behind IsInitialized()", fk(fn), call.Call.Method.Name()), c.pos(call), "",
+					"a compiled-in but unconfigured credential validator (zero value) is used: nil dereference on a client-chosen method name")
+			})
+		}
+	}
+	r.Check(n >= 1, "C13.2c-validator-initialised", "Validator.Request on validators taken from the registry", "-", fmt.Sprintf("%d", n), "none found: anchor lost")
+}
+
+// checkCleanupOrder (C14): the session clean-up waits for its in-flight requests before it walks
+// its subscription table (an attach still in flight would otherwise never be detached).
+func (c *Ctx) checkCleanupOrder() {
+	r := c.R
+	wait := c.method("server", "boundedWaitGroup", "Wait")
+	unsubAll := c.method("server", "Session", "unsubAll")
+	n := 0
+	for _, fn := range c.funcsCalling(unsubAll, "server") {
+		ws := core.CallsTo(fn, wait)
+		if len(ws) == 0 {
+			continue
+		}
+		for _, u := range core.CallsTo(fn, unsubAll) {
+			n++
+			r.Func(fk(fn))
+			found, _ := core.PathAvoiding(fn, nil, func(in ssa.Instruction) bool { return in == u.(ssa.Instruction) }, func(in ssa.Instruction) bool {
+				for _, w := range ws {
+					if in == w.(ssa.Instruction) {
+						return true
+					}
+				}
+				return false
+			}, nil)
+			r.Check(!found, "C14.7-cleanup-waits-first", fk(fn)+": inflightReqs.Wait() before unsubAll()", c.pos(u), "",
+				"the terminating session detaches from its topics before its in-flight requests are done: a subscribe that completes afterwards leaves the dead session attached")
+		}
+	}
+	r.Check(n >= 1, "C14.7-cleanup-waits-first", "clean-up function (Wait and unsubAll)", "-", fmt.Sprintf("%d", n), "not found: anchor lost")
+}
+
+// checkEndingOrigin (C15): the `from` argument of the call-ending function is the acting user of a
+// client request the caller received, or "" (server-initiated: timeout, detach); never a value the
+// caller made up, because "" is how the ending is classified as a disconnect.
+func (c *Ctx) checkEndingOrigin(clearers []fieldAccess) {
+	r := c.R
+	asUser := c.field("server", "ClientComMessage", "AsUser")
+	n := 0
+	seen := map[*ssa.Function]bool{}
+	for _, a := range clearers {
+		fn := a.Fn
+		if seen[fn] || len(fn.Params) < 2 {
+			continue
+		}
+		seen[fn] = true
+		idx := -1
+		for i, p := range fn.Params {
+			if b, ok := p.Type().Underlying().(*types.Basic); ok && b.Kind() == types.String {
+				idx = i
+				break
+			}
+		}
+		if idx < 0 {
+			continue
+		}
+		for _, cs := range c.callersOf(fn) {
+			args := cs.Site.Common().Args
+			if idx >= len(args) {
+				continue
+			}
+			n++
+			r.Func(fk(cs.Caller))
+			v := core.Strip(args[idx])
+			ok := core.IsConstString("")(v)
+			if f, base := core.LoadedField(v); f == asUser && base != nil {
+				if _, isParam := core.Strip(base).(*ssa.Parameter); isParam {
+					ok = true
+				}
+			}
+			r.Check(ok, "C15.3c-ending-origin", fmt.Sprintf("%s -> %s: `from` is the request's acting user or empty", fk(cs.Caller), fn.Name()), c.pos(cs.Site), "",
+				"a server-initiated ending (timeout, party detached) is attributed to a user: it is published as a hang-up (finished/missed) instead of disconnected")
+		}
+	}
+	r.Check(n >= 2, "C15.3c-ending-origin", "call sites of the call-ending function", "-", fmt.Sprintf("%d", n), "fewer than two: anchor lost")
+}
+
+// checkVoteRepliesDistinct (C17): every asynchronous vote request gets its own reply object: the
+// reply argument of callAsync is allocated inside the loop over the nodes (per iteration).
+func (c *Ctx) checkVoteRepliesDistinct() {
+	r := c.R
+	callAsync := c.method("server", "ClusterNode", "callAsync")
+	respT := c.P.NamedType("server", "ClusterVoteResponse")
+	n := 0
+	for _, fn := range c.funcsCalling(callAsync, "server") {
+		back := loopBackEdges(fn)
+		for _, ci := range core.CallsTo(fn, callAsync) {
+			args := core.CallArgs(ci.Common())
+			var reply *ssa.Alloc
+			for _, a := range args {
+				if al, ok := core.Strip(a).(*ssa.Alloc); ok {
+					if pt, ok := al.Type().(*types.Pointer); ok && types.Identical(pt.Elem(), respT) {
+						reply = al
+					}
+				}
+			}
+			if reply == nil {
+				continue
+			}
+			n++
+			r.Func(fk(fn))
+			// the call is in a loop; the allocation must be inside the same loop: from the allocation the
+			// call is reachable without a back edge, and the allocation lies on a cycle (reachable from itself)
+			inLoop := false
+			found, _ := core.PathAvoiding(fn, reply, func(in ssa.Instruction) bool { return in == ssa.Instruction(reply) }, nil, nil)
+			if found {
+				inLoop = true
+			}
+			callInLoop, _ := core.PathAvoiding(fn, ci.(ssa.Instruction), func(in ssa.Instruction) bool { return in == ci.(ssa.Instruction) }, nil, nil)
+			r.Check(!callInLoop || inLoop, "C17.3d-vote-replies-distinct", fk(fn)+": each Cluster.Vote request decodes into its own reply object", c.pos(ci), "",
+				"all vote requests share one reply object: a granted vote decoded earlier makes later refusals read as granted (gob does not reset zero fields)")
+			_ = back
+		}
+	}
+	r.Check(n >= 1, "C17.3d-vote-replies-distinct", "asynchronous vote requests", "-", fmt.Sprintf("%d", n), "not found: anchor lost")
+}
+
+// checkActiveNodesExact (C17): a node is listed as active exactly while its failure count is below
+// the limit: the append to the rebuilt list is behind `failCount < nodeFailCountLimit`.
+func (c *Ctx) checkActiveNodesExact() {
+	r := c.R
+	failCount := c.field("server", "ClusterNode", "failCount")
+	limit := c.field("server", "clusterFailover", "nodeFailCountLimit")
+	nameF := c.field("server", "ClusterNode", "name")
+	n := 0
+	for _, fn := range c.P.ModFuncs {
+		if !core.InPkg(fn, "server") || len(core.StoresToField(fn, c.field("server", "clusterFailover", "activeNodes"))) == 0 || !c.readsField(fn, failCount) {
+			continue // the initial list (all configured nodes) is built without failure counts
+		}
+		core.AllInstrs(fn, func(in ssa.Instruction) {
+			// the node's name placed into the argument list of append(activeNodes, ...)
+			st, ok := in.(*ssa.Store)
+			if !ok || !core.IsFieldLoad(nameF)(st.Val) {
+				return
+			}
+			if _, isElem := st.Addr.(*ssa.IndexAddr); !isElem {
+				return
+			}
+			n++
+			r.Func(fk(fn))
+			g := core.LessGuard("failCount<limit", core.IsFieldLoad(failCount), core.IsFieldLoad(limit), true)
+			ok2, cnt := core.GuardedBy(fn, st, g)
+			r.Check(ok2 && cnt[0] > 0, "C17.4b-active-nodes-exact", fk(fn)+": node appended to activeNodes only while failCount < nodeFailCountLimit", c.pos(st), "",
+				"a node that reached the failure limit is still listed as active: the partition test and the ring keep counting a dead node")
+		})
+	}
+	r.Check(n >= 1, "C17.4b-active-nodes-exact", "rebuild of the active node list", "-", fmt.Sprintf("%d", n), "not found: anchor lost")
+}
+
+// checkChannelSpellingInverse (C20): GrpToChn and ChnToGrp rewrite exactly one occurrence of the
+// prefix, with swapped arguments (mutually inverse on names the prefix test accepts).
+func (c *Ctx) checkChannelSpellingInverse() {
+	r := c.R
+	type rep struct {
+		from, to string
+		n        int64
+		ok       bool
+	}
+	get := func(name string) rep {
+		fn := c.ssaFn("server/store/types", name)
+		r.Func(fk(fn))
+		var out rep
+		core.AllInstrs(fn, func(in ssa.Instruction) {
+			call, ok := in.(*ssa.Call)
+			if !ok {
+				return
+			}
+			switch calleeFullName(call) {
+			case "strings.Replace":
+				a := call.Call.Args
+				f, ok1 := constString(a[1])
+				t, ok2 := constString(a[2])
+				k, ok3 := core.ConstIntValue(a[3])
+				out = rep{f, t, k, ok1 && ok2 && ok3}
+			case "strings.ReplaceAll":
+				a := call.Call.Args
+				f, ok1 := constString(a[1])
+				t, ok2 := constString(a[2])
+				out = rep{f, t, -1, ok1 && ok2}
+			}
+		})
+		return out
+	}
+	g2c, c2g := get("GrpToChn"), get("ChnToGrp")
+	if !g2c.ok && !c2g.ok {
+		// not written with strings.Replace: the prefix arithmetic is not decided here
+		r.Info("C20.4b-channel-spelling", "GrpToChn / ChnToGrp", "-", "not implemented with strings.Replace; not decided")
+		return
+	}
+	ok := g2c.ok && c2g.ok && g2c.n == 1 && c2g.n == 1 && g2c.from == c2g.to && g2c.to == c2g.from && g2c.from != g2c.to
+	r.Check(ok, "C20.4b-channel-spelling", "GrpToChn and ChnToGrp replace the prefix once, with swapped arguments", "-", fmt.Sprintf("%q<->%q", g2c.from, g2c.to),
+		fmt.Sprintf("the two spellings are not inverse: GrpToChn replaces %q by %q (n=%d), ChnToGrp replaces %q by %q (n=%d)", g2c.from, g2c.to, g2c.n, c2g.from, c2g.to, c2g.n))
+}
+
+func constString(v ssa.Value) (string, bool) {
+	k, ok := core.Strip(v).(*ssa.Const)
+	if !ok || k.Value == nil || k.Value.Kind() != constant.String {
+		return "", false
+	}
+	return constant.StringVal(k.Value), true
+}
+
+// checkForcedDownloadUnderMime (C16): with any one of the active-content tests of the MIME type
+// assumed true, every path to http.ServeContent passes Header().Set("Content-Disposition",
+// "attachment") - whatever the request's query parameters say.
+func (c *Ctx) checkForcedDownloadUnderMime() {
+	r := c.R
+	download := c.method("server/media", "Handler", "Download")
+	n := 0
+	for _, fn := range c.funcsCalling(download, "server") {
+		if !isHTTPHandler(fn) {
+			continue
+		}
+		var serve, set ssa.Instruction
+		var tests []*ssa.Call
+		c.withCallees(fn, 2, func(owner *ssa.Function, in ssa.Instruction, outer ssa.Instruction) {
+			call, ok := in.(*ssa.Call)
+			if !ok {
+				return
+			}
+			switch calleeFullName(call) {
+			case "net/http.ServeContent":
+				serve = outer
+			case "(net/http.Header).Set":
+				if core.IsConstString("Content-Disposition")(call.Call.Args[1]) {
+					set = outer
+				}
+			case "strings.Contains", "strings.HasPrefix":
+				if f, _ := core.LoadedField(core.Strip(call.Call.Args[0])); f != nil && f.Name() == "MimeType" && owner == fn {
+					tests = append(tests, call)
+				}
+			}
+		})
+		if serve == nil || set == nil || len(tests) == 0 {
+			continue // tests inside an extracted predicate: decided by C16.3 (census) only
+		}
+		r.Func(fk(fn))
+		for i, tcall := range tests {
+			n++
+			tcall := tcall
+			saved := core.AssumeFn
+			core.AssumeFn = func(a core.CondAtom) (bool, bool) {
+				if a.Op == token.ILLEGAL && a.Val == ssa.Value(tcall) {
+					return true, true
+				}
+				return false, false
+			}
+			cut := core.AssumedCuts(fn)
+			// only paths on which the test was evaluated: start after the test; conditions that are
+			// materialised booleans (`asAttachment := a || b || ...`) are resolved along those paths
+			for e := range core.PhiCutsFrom(fn, []*ssa.BasicBlock{tcall.Block()}, cut) {
+				cut[e] = true
+			}
+			core.AssumeFn = saved
+			found, _ := core.PathAvoiding(fn, tcall, func(in ssa.Instruction) bool { return in == serve }, func(in ssa.Instruction) bool { return in == set }, cut)
+			r.Check(!found, "C16.3b-forced-download-holds", fmt.Sprintf("%s: active-content test #%d true => Content-Disposition: attachment before ServeContent", fk(fn), i+1), c.pos(tcall), "",
+				"content of an active type (html, xml, text, application) can be served inline: a request parameter or another branch bypasses the forced download")
+		}
+	}
+	if n == 0 {
+		r.Info("C16.3b-forced-download-holds", "MIME tests in the download handler", "-", "tests are not in the handler itself; not decided by this rule")
+	}
+}
+
+// checkAvatarLinkOnlyWithDesc (C16): the topic's avatar attachments are (re)linked only when a
+// description update was accepted (the update map is not empty): linking replaces the existing link.
+func (c *Ctx) checkAvatarLinkOnlyWithDesc() {
+	r := c.R
+	link := c.E().storeIface("FilePersistenceInterface", "LinkAttachments")
+	topicsUpdate := c.E().storeIface("TopicsPersistenceInterface", "Update")
+	n := 0
+	for _, fn := range c.funcsCalling(link, "server") {
+		if !isPtrToNamedRecv(fn, "Topic") || len(core.CallsTo(fn, topicsUpdate)) == 0 {
+			continue
+		}
+		// the update map handed to Topics.Update
+		var maps []ssa.Value
+		for _, u := range core.CallsTo(fn, topicsUpdate) {
+			args := core.CallArgs(u.Common())
+			maps = append(maps, core.Strip(args[len(args)-1]))
+		}
+		for _, l := range core.CallsTo(fn, link) {
+			n++
+			r.Func(fk(fn))
+			g := core.Guard{Name: "len(update)>0", Match: func(a core.CondAtom) (bool, bool) {
+				isLen := func(v ssa.Value) bool {
+					call, ok := core.Strip(v).(*ssa.Call)
+					if !ok {
+						return false
+					}
+					b, ok := call.Call.Value.(*ssa.Builtin)
+					if !ok || b.Name() != "len" {
+						return false
+					}
+					for _, m := range maps {
+						if sameValue(call.Call.Args[0], m, 0) {
+							return true
+						}
+					}
+					return false
+				}
+				// 0 < len(m)
+				if a.Op == token.LSS && core.IsConstInt(0)(a.X) && isLen(a.Y) {
+					return true, true
+				}
+				// len(m) == 0
+				if a.Op == token.EQL && ((isLen(a.X) && core.IsConstInt(0)(a.Y)) || (isLen(a.Y) && core.IsConstInt(0)(a.X))) {
+					return true, false
+				}
+				return false, false
+			}}
+			ok, cnt := core.GuardedBy(fn, l.(ssa.Instruction), g)
+			r.Check(ok && cnt[0] > 0, "C16.5d-avatar-link-with-description", fk(fn)+": Files.LinkAttachments only when the description update is not empty", c.pos(l), "",
+				"a request that changes nothing in the topic's description still replaces the topic's attachment links: the real avatar is unlinked and later garbage-collected")
+		}
+	}
+	r.Check(n >= 1, "C16.5d-avatar-link-with-description", "avatar linking in the description handler", "-", fmt.Sprintf("%d", n), "not found: anchor lost")
+}
